@@ -8,11 +8,17 @@
 (* are page aligned, so alignment can be judged on the offset).            *)
 (***************************************************************************)
 EXTENDS Naturals, FiniteSets
-CONSTANT PS          \* page size in allocation units
-VARIABLES pages,     \* set of page indices currently owned
-          live       \* set of [addr, size, align]
+CONSTANT
+  \* @type: Int;
+  PS                 \* page size in allocation units
+VARIABLES
+  \* @type: Set(Int);
+  pages,             \* set of page indices currently owned
+  \* @type: Set({addr: Int, size: Int, align: Int});
+  live               \* set of [addr, size, align]
 avars == <<pages, live>>
 
+\* @type: ({addr: Int, size: Int, align: Int}, {addr: Int, size: Int, align: Int}) => Bool;
 Disj(a, b) == a.addr + a.size <= b.addr \/ b.addr + b.size <= a.addr
 InOnePage(addr, size, P) == \E p \in P : p * PS <= addr /\ addr + size <= (p + 1) * PS
 
@@ -23,7 +29,7 @@ Alloc(addr, size, align, newpages) ==
   /\ pages \subseteq newpages
   /\ addr % align = 0
   /\ InOnePage(addr, size, newpages)
-  /\ \A r \in live : Disj([addr |-> addr, size |-> size], r)
+  /\ \A r \in live : Disj([addr |-> addr, size |-> size, align |-> align], r)
   /\ pages' = newpages
   /\ live' = live \cup {[addr |-> addr, size |-> size, align |-> align]}
 
